@@ -353,6 +353,48 @@ theorem skipUp_spec : ∀ (fuel : Nat) (ds : List Nat) (i : Nat),
       · exact b j (by omega) h2
     · rw [if_neg hc]; exact ⟨Nat.le_refl _, fun j h1 h2 => by omega⟩
 
+theorem skipUp_le : ∀ (fuel : Nat) (ds : List Nat) (i j : Nat), i ≤ j → ds.getD j 0 ≠ 0 → skipUp fuel ds i ≤ j := by
+  intro fuel
+  induction fuel with
+  | zero => intro ds i j h _; simpa [skipUp] using h
+  | succ f ih =>
+    intro ds i j h hj
+    rw [skipUp]
+    by_cases hc : ds.getD i 0 = 0 ∧ i + 1 < ds.length
+    · rw [if_pos hc]
+      apply ih ds (i + 1) j _ hj
+      rcases Nat.eq_or_lt_of_le h with e | e
+      · rw [e] at hc; exact absurd hc.1 hj
+      · omega
+    · rw [if_neg hc]; exact h
+
+theorem skipDown_ge : ∀ (fuel : Nat) (ds : List Nat) (i j : Nat), j ≤ i → ds.getD j 0 ≠ 0 → j ≤ skipDown fuel ds i := by
+  intro fuel
+  induction fuel with
+  | zero => intro ds i j h _; simpa [skipDown] using h
+  | succ f ih =>
+    intro ds i j h hj
+    rw [skipDown]
+    by_cases hc : ds.getD i 0 = 0 ∧ 0 < i
+    · rw [if_pos hc]
+      apply ih ds (i - 1) j _ hj
+      rcases Nat.eq_or_lt_of_le h with e | e
+      · rw [← e] at hc; exact absurd hc.1 hj
+      · omega
+    · rw [if_neg hc]; exact h
+
+theorem exists_nonzero (l : List Nat) (h : natOfLimbs l ≠ 0) : ∃ j, l.getD j 0 ≠ 0 := by
+  apply Classical.byContradiction
+  intro hn
+  apply h
+  apply all_zero_nat
+  intro x hx
+  obtain ⟨j, hj, e⟩ := List.mem_iff_getElem.mp hx
+  have : l.getD j 0 = 0 := Classical.byContradiction (fun hh => hn ⟨j, hh⟩)
+  rw [List.getD_eq_getElem?_getD, List.getElem?_eq_getElem hj] at this
+  simp only [Option.getD_some] at this
+  rw [← e]; exact this
+
 theorem skipDown_spec : ∀ (fuel : Nat) (ds : List Nat) (i : Nat),
     skipDown fuel ds i ≤ i ∧ ∀ j, skipDown fuel ds i < j → j ≤ i → ds.getD j 0 = 0 := by
   intro fuel
@@ -372,7 +414,8 @@ theorem skipDown_spec : ∀ (fuel : Nat) (ds : List Nat) (i : Nat),
 
 /-- **a right-shift pass divides exactly**: the number denoted by the array is divided by `2^s`, nothing is lost -/
 theorem shrPass_spec (extra s : Nat) (A A' : Arr) (h : shrPass extra s A = some A') (wf : WF A) (hord0 : A.msd ≤ A.lsd + 1) :
-    natOfLimbs A'.digits * pow2 s = natOfLimbs A.digits ∧ A'.digits.length = A.digits.length ∧ WF A' := by
+    natOfLimbs A'.digits * pow2 s = natOfLimbs A.digits ∧ A'.digits.length = A.digits.length ∧ WF A' ∧
+      A'.lsd < A'.digits.length ∧ A.lsd ≤ A'.lsd := by
   unfold shrPass at h
   simp only at h
   generalize hn : A.lsd + 1 + extra - A.msd = n at h
@@ -420,7 +463,15 @@ theorem shrPass_spec (extra s : Nat) (A A' : Arr) (h : shrPass extra s A = some 
         omega
       rw [← h]
       simp only
-      refine ⟨?_, hdslen, ?_⟩
+      have hlsd : A.msd + n + p.1.length - 1 < (pre ++ q.1 ++ p.1 ++ p.2).length ∧ A.lsd ≤ A.msd + n + p.1.length - 1 := by
+        simp only [List.length_append, hql, hwinlen, hprelen]
+        have : 0 < A.digits.length := by omega
+        rw [hsplit] at this
+        simp only [List.length_append, hwinlen, hprelen] at this
+        rw [hc1] at this
+        simp only [List.length_append, hc2] at this
+        omega
+      refine ⟨?_, hdslen, ?_, hlsd.1, hlsd.2⟩
       · -- value
         rw [hsplit, hc1]
         simp only [nat_append, hpre0, hun0', hcs0, Nat.zero_mul, Nat.zero_add, Nat.add_zero, List.length_append]
